@@ -57,3 +57,12 @@ Record cidr := mkCidr { c_ip : list N; c_mask : list N }.
 (** big-endian bytes of a 32-bit number (used to build examples and test inputs) *)
 Definition bytes_of_u32 (x : N) : list N :=
   [x / 16777216 mod 256; x / 65536 mod 256; x / 256 mod 256; x mod 256].
+
+Fixpoint bytes_eqb (a b : list N) : bool :=
+  match a, b with
+  | [], [] => true
+  | x :: a', y :: b' => (x =? y) && bytes_eqb a' b'
+  | _, _ => false
+  end.
+Definition cidr_eqb (c d : cidr) : bool :=
+  bytes_eqb (c_ip c) (c_ip d) && bytes_eqb (c_mask c) (c_mask d).
